@@ -57,7 +57,11 @@ func (t DataType) Bytes(endian binary.ByteOrder, value interface{}, length int64
 		}
 		return bs, nil
 	case DATE, DATEN:
-		t := asetime.DurationFromDateTime(value.(time.Time))
+		// Only the calendar day counts. Strip the time of day before
+		// computing the offset - a negative offset (dates before 1900)
+		// with a time part would otherwise be truncated towards 1900.
+		tm := value.(time.Time)
+		t := asetime.DurationFromDateTime(tm) - asetime.DurationFromTime(tm)
 		t -= asetime.DurationFromDateTime(asetime.Epoch1900())
 
 		bs := make([]byte, length)
@@ -71,10 +75,16 @@ func (t DataType) Bytes(endian binary.ByteOrder, value interface{}, length int64
 		endian.PutUint32(bs, uint32(fract))
 		return bs, nil
 	case SHORTDATE, DATETIME, DATETIMEN:
-		t := asetime.DurationFromDateTime(value.(time.Time))
+		tm := value.(time.Time)
+		t := asetime.DurationFromDateTime(tm)
 		t -= asetime.DurationFromDateTime(asetime.Epoch1900())
 
-		days := t.Days()
+		// The day offset is taken from the date alone - dividing the
+		// full (possibly negative) offset truncates towards 1900 and
+		// leaves a negative time of day for dates before 1900.
+		date := asetime.DurationFromDateTime(tm) - asetime.DurationFromTime(tm)
+		date -= asetime.DurationFromDateTime(asetime.Epoch1900())
+		days := date.Days()
 
 		bs := make([]byte, length)
 		switch length {
